@@ -1,5 +1,7 @@
 import Vflow.Model.Shutdown
+import Vflow.Proofs.ShutdownReach
 import Vflow.Gen.ShutdownIR
+import Vflow.Gen.PidFile
 /-!
 # C15 — SIGTERM stops the collector cleanly
 
@@ -19,6 +21,18 @@ every combination of the assumptions).  The program before the repair is kept as
 channel is reachable as soon as `H` is dropped (`close_race_without_H`; reproduced on the real binary
 by freezing the process for longer than the grace period, `e2e.stall_cycle`).
 
+Since the F27 repair the dump of `shutdown()` is guarded by an atomic "loaded" flag that `run()` sets right after it
+has assigned the loaded cache to the package-level variable.  `run()` and `shutdown()` are two goroutines with only the
+signal in between, and `GetCache` takes as long as the file of the previous run is large, so the model's reader starts
+BEFORE those statements (`RPc.starting`): `dump_only_after_load` says that in no interleaving the file is rewritten
+from a cache that has not been loaded, `skipped_dump_loses_nothing` that a skipped dump leaves the file as it was in a
+run that never read a datagram.  On the programs before the repair (`unguardedProgs`) the wipe is reachable under
+every combination of the timing assumptions, in a run that ends normally (`early_dump_wipes_unguarded`; on the real
+binary: `e2e.early_stop_cycle`).
+
+The pid file (F28) is a separate, sequential model (`Vflow.Model.PidFile`, facts `Vflow.Gen.PidFile`):
+`is_running_spec` and its corollaries at the end of this file.
+
 What the model cannot exhibit (labelled partial in the manifest): wall-clock seconds, signal
 delivery, the non-atomic `stop` flag.  Survival of the templates across the restart is the
 composition with C10 (dump under the shard read locks = one consistent snapshot) and C11
@@ -33,9 +47,10 @@ def essential (p : List SStep) : List SStep := p.filter fun s => s ≠ .guardEna
 
 /-! ## Obligations over the regenerated facts -/
 
-/-- `shutdown()` sets the stop flag, sleeps, dumps — and does **not** close the queue (F21 repair) -/
-theorem gen_ipfix_shutdown : essential ipfixShutdown = [.setStop, .sleep1s, .dump] := by decide
-theorem gen_v9_shutdown : essential netflowV9Shutdown = [.setStop, .sleep1s, .dump] := by decide
+/-- `shutdown()` sets the stop flag, sleeps, dumps **if the cache has been loaded** (F27 repair) — and does **not**
+close the queue (F21 repair) -/
+theorem gen_ipfix_shutdown : essential ipfixShutdown = [.setStop, .sleep1s, .dumpIfLoaded] := by decide
+theorem gen_v9_shutdown : essential netflowV9Shutdown = [.setStop, .sleep1s, .dumpIfLoaded] := by decide
 theorem gen_v5_shutdown : essential netflowV5Shutdown = [.setStop, .sleep1s] := by decide
 theorem gen_sflow_shutdown : essential sflowShutdown = [.setStop, .sleep1s, .closeConn] := by decide
 
@@ -52,6 +67,25 @@ theorem gen_read_loops :
     netflowV5ReadLoop = canonicalReadLoop ∧ sflowReadLoop = canonicalReadLoop ∧
     ipfixAfterLoop = canonicalAfterLoop ∧ netflowV9AfterLoop = canonicalAfterLoop ∧
     netflowV5AfterLoop = canonicalAfterLoop ∧ sflowAfterLoop = canonicalAfterLoop := by decide
+
+/-- what `run()` does with the template cache before its read loop: the cache variable `shutdown()` dumps is assigned
+the result of `GetCache` on the file `shutdown()` dumps to, THEN the flag the dump tests is stored (atomically), then
+(IPFIX) the loaded cache is handed to the RPC goroutine; the generator emits these steps only when the variable, the
+file and the flag are the ones named in the dump statement of the same protocol's `shutdown()` -/
+theorem gen_before_loops :
+    ipfixBeforeLoop = [.loadCache, .markLoaded, .spawnRPC] ∧ netflowV9BeforeLoop = [.loadCache, .markLoaded] ∧
+    netflowV5BeforeLoop = [] ∧ sflowBeforeLoop = [] := by decide
+
+/-- in the whole of package vflow a template cache variable is assigned exactly once, by the `run()` of its protocol
+(no initial value, no other assignment, its address is never taken), and a "loaded" flag is used in exactly two
+places: the atomic store of 1 in that `run()` and the atomic load in that protocol's `shutdown()` (no plain read or
+write, no initial value, no other store: once set it stays set, and it is set only after the assignment) -/
+theorem gen_cache_writers :
+    cacheWriters = [("IPFIX.run", "mCache = ipfix.GetCache(opts.IPFIXTplCacheFile)"),
+                    ("NetflowV9.run", "mCacheNF9 = netflow9.GetCache(opts.NetflowV9TplCacheFile)")] ∧
+    loadedFlagUses = [("IPFIX.run", "atomic.StoreInt32(&mCacheLoaded, 1)"), ("IPFIX.shutdown", "atomic.LoadInt32(&mCacheLoaded)"),
+                      ("NetflowV9.run", "atomic.StoreInt32(&mCacheNF9Loaded, 1)"),
+                      ("NetflowV9.shutdown", "atomic.LoadInt32(&mCacheNF9Loaded)")] := by decide
 
 /-- in the whole of package vflow each UDP work queue has exactly one send statement and exactly one
 `close`, both in the `run()` of its own protocol (so the model's two goroutines are all there is: no
@@ -72,16 +106,25 @@ theorem gen_main :
 /-! ## All interleavings of the generated programs -/
 
 def progs : List Prog :=
-  [⟨ipfixShutdown, ipfixAfterLoop⟩, ⟨netflowV9Shutdown, netflowV9AfterLoop⟩,
-   ⟨netflowV5Shutdown, netflowV5AfterLoop⟩, ⟨sflowShutdown, sflowAfterLoop⟩]
+  [⟨ipfixShutdown, ipfixBeforeLoop, ipfixAfterLoop⟩, ⟨netflowV9Shutdown, netflowV9BeforeLoop, netflowV9AfterLoop⟩,
+   ⟨netflowV5Shutdown, netflowV5BeforeLoop, netflowV5AfterLoop⟩, ⟨sflowShutdown, sflowBeforeLoop, sflowAfterLoop⟩]
 
-/-- the programs as they were before the F21 repair (repository commit 4d10a36; IPFIX and NetFlow v9 had the
-same one, then NetFlow v5, then sFlow): `shutdown()` closes the queue as its last statement, nothing follows
-the read loop -/
+/-- the two protocols that keep a template cache (IPFIX, NetFlow v9) -/
+def cacheProgs : List Prog := progs.take 2
+
+/-- the programs as they were before the F21 repair (repository commit 4d10a36; IPFIX — NetFlow v9 had the
+same one without the RPC statement —, then NetFlow v5, then sFlow): `shutdown()` closes the queue as its last
+statement, nothing follows the read loop (and the dump is unguarded: see `unguardedProgs`) -/
 def unrepairedProgs : List Prog :=
-  [⟨[.guardEnabled, .setStop, .log, .sleep1s, .dump, .log, .closeQueue], []⟩,
-   ⟨[.guardEnabled, .setStop, .log, .sleep1s, .log, .closeQueue], []⟩,
-   ⟨[.guardEnabled, .setStop, .log, .sleep1s, .closeConn, .log, .closeQueue], []⟩]
+  [⟨[.guardEnabled, .setStop, .log, .sleep1s, .dump, .log, .closeQueue], [.loadCache, .spawnRPC], []⟩,
+   ⟨[.guardEnabled, .setStop, .log, .sleep1s, .log, .closeQueue], [], []⟩,
+   ⟨[.guardEnabled, .setStop, .log, .sleep1s, .closeConn, .log, .closeQueue], [], []⟩]
+
+/-- the IPFIX and NetFlow v9 programs as they were before the F27 repair (repository commit 6770a64, as this
+generator extracts them from that tree): the dump of `shutdown()` is unconditional and `run()` has no flag -/
+def unguardedProgs : List Prog :=
+  [⟨[.guardEnabled, .setStop, .log, .sleep1s, .dump, .log], [.loadCache, .spawnRPC], [.closeQueue]⟩,
+   ⟨[.guardEnabled, .setStop, .log, .sleep1s, .dump, .log], [.loadCache], [.closeQueue]⟩]
 
 /-- the assumptions under which the repaired programs are enumerated: none, or the fact about the two 1 s
 constants; the hand-off hypothesis changes nothing for them (`handoff_irrelevant`) -/
@@ -95,31 +138,45 @@ theorem reachable_closed :
     (∀ p ∈ unrepairedProgs, closedUnderNext p ⟨true, true⟩ = true) := by
   decide +kernel
 
+/-- no `shutdown()` closes a queue (F21 repair; `gen_*_shutdown`), so the hand-off hypothesis has nothing to guard -/
+theorem no_close_in_shutdown : ∀ p ∈ progs, SStep.closeQueue ∉ p.shutdown := by decide
+
 /-- the hand-off hypothesis makes no difference to the repaired programs (their `shutdown()` has no `close`):
-same reachable states, same steps -/
+same reachable states, same steps (`Proofs/ShutdownReach`: it only guards a `closeQueue` of `shutdown()`) -/
 theorem handoff_irrelevant :
     ∀ p ∈ progs, ∀ d ∈ [false, true], reachable p ⟨true, d⟩ = reachable p ⟨false, d⟩ ∧
-      ∀ s ∈ reachable p ⟨false, d⟩, next p ⟨true, d⟩ s = next p ⟨false, d⟩ s := by decide +kernel
+      ∀ s ∈ reachable p ⟨false, d⟩, next p ⟨true, d⟩ s = next p ⟨false, d⟩ s :=
+  fun p hp d _ => ⟨(reachable_handoff p (no_close_in_shutdown p hp) d).1, fun s _ => (reachable_handoff p (no_close_in_shutdown p hp) d).2 s⟩
 
 /-- the fact about the 1 s constants only removes interleavings: whatever is reachable with it is reachable
-without. So what holds in every state of `reachable p .none` holds under every combination of assumptions. -/
+without. So what holds in every state of `reachable p .none` holds under every combination of assumptions.
+(`Proofs/ShutdownReach`: the fact only disables a step, and `reachable p .none` is closed under all steps.) -/
 theorem deadlines_only_restrict :
-    ∀ p ∈ progs, ∀ s ∈ reachable p ⟨false, true⟩, (reachable p .none).contains s = true := by
-  decide +kernel
+    ∀ p ∈ progs, ∀ s ∈ reachable p ⟨false, true⟩, (reachable p .none).contains s = true :=
+  fun p hp s hs => List.contains_iff_mem.mpr
+    (reachable_deadlines_subset p false (reachable_closed.1 p hp .none (by simp [timing])) s hs)
 
 /-- remaining work once `stop` is set: reader distance to the return of `run()` + shutdown statements left -/
 def measure (p : Prog) (s : St) : Nat :=
   (match s.rpc with
     | .exited => 0 | .leaving k => 1 + (p.afterLoop.length - k)
+    | .starting k => 3 + p.afterLoop.length + (p.beforeLoop.length - k)
     | .atCheck => 2 + p.afterLoop.length | .havePacket => 3 + p.afterLoop.length | .inRead => 4 + p.afterLoop.length)
   + (p.shutdown.length - s.spc)
 
-/-- one enumeration for the three safety statements below (each reachable state of each program, no assumption) -/
+set_option synthInstance.maxSize 1024 in
+/-- one enumeration for the safety statements below (each reachable state of each program, no assumption) -/
 theorem safety_all_interleavings :
     ∀ p ∈ progs, ∀ s ∈ reachable p .none,
       s.panicked = false ∧
       (s.closed = true → s.stop = true ∧ s.pastLoop = true ∧ s.rpc ≠ .leaving 0) ∧
-      s.readsAfterStop ≤ 1 := by decide +kernel
+      s.readsAfterStop ≤ 1 ∧
+      -- the dump and the load (F27)
+      s.wiped = false ∧
+      (s.dumped = true → s.cacheSet = true ∧ s.loadedFlag = true) ∧
+      (s.loadedFlag = true → s.cacheSet = true) ∧
+      (s.dumpSkipped = true → s.everRead = false ∧ s.dumped = false ∧ s.stop = true) ∧
+      (s.spc = p.shutdown.length → s.everRead = true → p ∈ cacheProgs → s.dumped = true) := by decide +kernel
 
 /-- **C15 (no panic)**: no interleaving sends on the closed queue or closes it twice — with no assumption on
 timing or scheduling (`Assume.none`: every interleaving of the atomic steps): not the hand-off hypothesis `H`,
@@ -128,21 +185,27 @@ timed model only.) -/
 theorem no_send_on_closed_queue : ∀ p ∈ progs, ∀ s ∈ reachable p .none, s.panicked = false :=
   fun p hp s hs => (safety_all_interleavings p hp s hs).1
 
-/-- the same under any combination of the assumptions (they only remove interleavings) -/
-theorem no_send_on_closed_queue_assuming : ∀ p ∈ progs, ∀ a ∈ Assume.all, ∀ s ∈ reachable p a, s.panicked = false := by
-  intro p hp a ha s hs
-  have key : ∀ d ∈ [false, true], ∀ s ∈ reachable p ⟨false, d⟩, s.panicked = false := by
+/-- whatever holds in every state reachable without assumptions holds under any combination of the assumptions
+(they only remove interleavings: `deadlines_only_restrict`, `handoff_irrelevant`) -/
+theorem safety_transfer {P : St → Prop} (p : Prog) (hp : p ∈ progs) (h : ∀ s ∈ reachable p .none, P s) :
+    ∀ a ∈ Assume.all, ∀ s ∈ reachable p a, P s := by
+  intro a ha s hs
+  have key : ∀ d ∈ [false, true], ∀ s ∈ reachable p ⟨false, d⟩, P s := by
     intro d hd s hs
     simp only [List.mem_cons, List.not_mem_nil, or_false] at hd
     rcases hd with rfl | rfl
-    · exact no_send_on_closed_queue p hp s hs
-    · exact no_send_on_closed_queue p hp s (List.contains_iff_mem.mp (deadlines_only_restrict p hp s hs))
+    · exact h s hs
+    · exact h s (List.contains_iff_mem.mp (deadlines_only_restrict p hp s hs))
   simp only [Assume.all, List.mem_cons, List.not_mem_nil, or_false] at ha
   rcases ha with rfl | rfl | rfl | rfl
   · exact key false (by simp) s hs
   · exact key true (by simp) s hs
   · rw [(handoff_irrelevant p hp false (by simp)).1] at hs; exact key false (by simp) s hs
   · rw [(handoff_irrelevant p hp true (by simp)).1] at hs; exact key true (by simp) s hs
+
+/-- the same under any combination of the assumptions (they only remove interleavings) -/
+theorem no_send_on_closed_queue_assuming : ∀ p ∈ progs, ∀ a ∈ Assume.all, ∀ s ∈ reachable p a, s.panicked = false :=
+  fun p hp => safety_transfer p hp (no_send_on_closed_queue p hp)
 
 /-- the reason: the queue is closed only by the reader, after it has left its loop for good -/
 theorem closed_only_after_loop :
@@ -169,12 +232,78 @@ theorem close_race_when_frozen : ∀ p ∈ unrepairedProgs.take 2, ∃ s ∈ rea
 /-- a half-applied repair (the reader closes AND `shutdown()` still closes) panics on the second `close`,
 even under both assumptions: the model is sensitive to who closes -/
 theorem double_close_panics :
-    ∃ s ∈ reachable ⟨[.guardEnabled, .setStop, .log, .sleep1s, .log, .closeQueue], [.closeQueue]⟩ ⟨true, true⟩,
+    ∃ s ∈ reachable ⟨[.guardEnabled, .setStop, .log, .sleep1s, .log, .closeQueue], [], [.closeQueue]⟩ ⟨true, true⟩,
       s.panicked = true := by decide +kernel
 
 /-- **C15 (the read loop stops)**: after `stop` is set at most one more read completes, in every interleaving -/
 theorem at_most_one_read_after_stop : ∀ p ∈ progs, ∀ s ∈ reachable p .none, s.readsAfterStop ≤ 1 :=
-  fun p hp s hs => (safety_all_interleavings p hp s hs).2.2
+  fun p hp s hs => (safety_all_interleavings p hp s hs).2.2.1
+
+/-! ## The dump and the load (F27) -/
+
+/-- the F27 part of `safety_all_interleavings` -/
+theorem load_all_interleavings :
+    ∀ p ∈ progs, ∀ s ∈ reachable p .none,
+      s.wiped = false ∧
+      (s.dumped = true → s.cacheSet = true ∧ s.loadedFlag = true) ∧
+      (s.loadedFlag = true → s.cacheSet = true) ∧
+      (s.dumpSkipped = true → s.everRead = false ∧ s.dumped = false ∧ s.stop = true) ∧
+      (s.spc = p.shutdown.length → s.everRead = true → p ∈ cacheProgs → s.dumped = true) :=
+  fun p hp s hs => (safety_all_interleavings p hp s hs).2.2.2
+
+/-- **C15 (the file of the previous run survives an early stop)**: in no interleaving of `run()` — started before it
+has loaded the cache file, however long that takes — and `shutdown()` is the cache file rewritten from a cache that has
+not been loaded: whenever the dump has been taken, the cache variable held the loaded templates and the flag was set;
+the flag is never set before the variable is assigned. No assumption on timing or scheduling. -/
+theorem dump_only_after_load :
+    ∀ p ∈ progs, ∀ s ∈ reachable p .none,
+      s.wiped = false ∧ (s.dumped = true → s.cacheSet = true ∧ s.loadedFlag = true) ∧ (s.loadedFlag = true → s.cacheSet = true) :=
+  fun p hp s hs => ⟨(load_all_interleavings p hp s hs).1, (load_all_interleavings p hp s hs).2.1, (load_all_interleavings p hp s hs).2.2.1⟩
+
+/-- the same under any combination of the assumptions -/
+theorem dump_only_after_load_assuming : ∀ p ∈ progs, ∀ a ∈ Assume.all, ∀ s ∈ reachable p a, s.wiped = false :=
+  fun p hp => safety_transfer p hp (fun s hs => (dump_only_after_load p hp s hs).1)
+
+/-- a dump that is skipped (the flag was not set yet when `shutdown()` reached it) loses nothing: `stop` had been
+set before, so the read loop of that run never arms a read — no datagram, hence no template, was received in this
+run, and the file is left exactly as the previous run wrote it -/
+theorem skipped_dump_loses_nothing :
+    ∀ p ∈ progs, ∀ s ∈ reachable p .none, s.dumpSkipped = true → s.everRead = false ∧ s.dumped = false ∧ s.stop = true :=
+  fun p hp s hs => (load_all_interleavings p hp s hs).2.2.2.1
+
+/-- and conversely: once `shutdown()` of IPFIX / NetFlow v9 has run to its end in a run that has armed a read at
+least once, the dump HAS been taken (the guard never suppresses the dump of a collector that was receiving) -/
+theorem receiving_run_is_dumped :
+    ∀ p ∈ cacheProgs, ∀ s ∈ reachable p .none, s.spc = p.shutdown.length → s.everRead = true → s.dumped = true :=
+  fun p hp s hs h1 h2 => (load_all_interleavings p (List.mem_of_mem_take hp) s hs).2.2.2.2 h1 h2 hp
+
+/-- regression witness (the code before the F27 repair, `unguardedProgs`): under EVERY combination of the timing
+assumptions — nothing bounds the time `GetCache` takes — a run is reachable that ends normally (reader returned,
+`shutdown()` at its end, no panic: exit status 0) with the cache file of the previous run replaced by the dump of
+the nil cache. This is what `e2e.early_stop_cycle` shows on the real binary (117 MB file, SIGTERM right after
+"ipfix is running": `{"Cache":null,"ShardNo":32}`). -/
+theorem early_dump_wipes_unguarded :
+    ∀ p ∈ unguardedProgs, ∀ a ∈ Assume.all, ∃ s ∈ reachable p a,
+      s.wiped = true ∧ s.rpc = .exited ∧ s.spc = p.shutdown.length ∧ s.panicked = false ∧ s.everRead = false := by
+  -- enumerated without the hand-off hypothesis; with it the reachable states are the same (no `close` in `shutdown()`)
+  have key : ∀ p ∈ unguardedProgs, SStep.closeQueue ∉ p.shutdown ∧ ∀ d ∈ [false, true], ∃ s ∈ reachable p ⟨false, d⟩,
+      s.wiped = true ∧ s.rpc = .exited ∧ s.spc = p.shutdown.length ∧ s.panicked = false ∧ s.everRead = false := by
+    decide +kernel
+  intro p hp a ha
+  simp only [Assume.all, List.mem_cons, List.not_mem_nil, or_false] at ha
+  rcases ha with rfl | rfl | rfl | rfl
+  · exact (key p hp).2 false (by simp)
+  · exact (key p hp).2 true (by simp)
+  · rw [(reachable_handoff p (key p hp).1 false).1]; exact (key p hp).2 false (by simp)
+  · rw [(reachable_handoff p (key p hp).1 true).1]; exact (key p hp).2 true (by simp)
+
+/-- a half-applied repair is told apart: the guard without the store of the flag never dumps (templates learned in a
+receiving run are lost), and the store placed BEFORE the assignment still wipes the file -/
+theorem guard_needs_store_after_load :
+    (∃ s ∈ reachable ⟨ipfixShutdown, [.loadCache, .spawnRPC], ipfixAfterLoop⟩ .none,
+      s.spc = ipfixShutdown.length ∧ s.everRead = true ∧ s.dumped = false) ∧
+    (∃ s ∈ reachable ⟨ipfixShutdown, [.markLoaded, .loadCache, .spawnRPC], ipfixAfterLoop⟩ .none, s.wiped = true) := by
+  decide +kernel
 
 set_option synthInstance.maxSize 1024 in
 /-- one enumeration for the three statements below (each reachable state of each program, without and with the
@@ -218,8 +347,72 @@ theorem dump_after_stop_and_sleep :
 
 /-- non-vacuity: the state spaces are not trivial, and the final state (reader exited, queue closed by it,
 shutdown done, no panic) is reachable -/
-example : (reachable ⟨ipfixShutdown, ipfixAfterLoop⟩ .none).length > 20 ∧
-    (reachable ⟨ipfixShutdown, ipfixAfterLoop⟩ .none).any (fun s => s.rpc == .exited && s.spc == ipfixShutdown.length && s.dumped && s.closed && !s.panicked) = true := by
+example : (reachable ⟨ipfixShutdown, ipfixBeforeLoop, ipfixAfterLoop⟩ .none).length > 20 ∧
+    (reachable ⟨ipfixShutdown, ipfixBeforeLoop, ipfixAfterLoop⟩ .none).any (fun s => s.rpc == .exited && s.spc == ipfixShutdown.length && s.dumped && s.everRead && s.closed && !s.panicked) = true ∧
+    -- the early stop: shutdown() ran to its end before the cache was loaded; the dump was skipped, nothing wiped
+    (reachable ⟨ipfixShutdown, ipfixBeforeLoop, ipfixAfterLoop⟩ .none).any (fun s => s.rpc == .exited && s.spc == ipfixShutdown.length && s.dumpSkipped && !s.dumped && !s.wiped && s.closed && !s.panicked) = true := by
   decide +kernel
+
+/-! ## The pid file (F28) -/
+
+section PidFile
+open Vflow.PidFile Vflow.Gen.PidFile
+
+/-- `vFlowIsRunning`: read the pid file (unreadable ⇒ not running); a recorded PID equal to the process's own PID
+⇒ not running (F28 repair); otherwise `kill -0` on the recorded text decides -/
+theorem gen_is_running :
+    isRunningSteps = [.readPidFile, .unreadableNotRunning, .ownPidNotRunning, .probeKill0, .runProbe, .runningIffProbeOk] := by decide
+
+/-- `vFlowPIDWrite` writes `os.Getpid()` in decimal, with nothing after it, over whatever the file held — the text
+the own-PID test compares with (`strconv.Itoa(os.Getpid())`); `GetOptions` tests first and writes after; no other
+function of package vflow touches the pid file (nothing removes it at exit) -/
+theorem gen_pid_write :
+    pidWriteSteps = [.openTruncCreate, .openErrorLogReturn, .writeOwnPidDecimal, .writeErrorLog] ∧
+    getOptionsPidSteps = [.refuseIfRunning, .writePidFile] ∧
+    pidFileUsers = [("GetOptions", "vFlowIsRunning"), ("GetOptions", "vFlowPIDWrite"), ("NewOptions", "PIDFile"),
+                    ("Options.flagSet", "PIDFile"), ("Options.vFlowIsRunning", "PIDFile"), ("Options.vFlowPIDWrite", "PIDFile")] := by decide
+
+/-- **C15 (repeated stop/start cycles: the pid file)**: for every content of the pid file, every own PID and every
+set of live PIDs, the regenerated `vFlowIsRunning` answers "running" exactly when the file records the PID of a live
+process OTHER than the one that is starting -/
+theorem is_running_spec (e : Env) :
+    isRunning isRunningSteps e = some (match e.file with
+      | .pid n => decide (n ≠ e.own) && e.alive n
+      | _ => false) := by
+  rw [gen_is_running]
+  cases hf : e.file with
+  | absent => simp [isRunning, hf]
+  | garbage => simp [isRunning, afterRead, hf]
+  | pid n =>
+    by_cases h : n = e.own
+    · simp [isRunning, afterRead, hf, h]
+    · simp [isRunning, afterRead, hf, h]
+
+/-- a restart that gets the PID of the previous run (a container: the pid file is stale and records the new
+process's own PID, which `kill -0` finds alive) is not refused … -/
+theorem same_pid_restart_not_refused (e : Env) (h : e.file = .pid e.own) : isRunning isRunningSteps e = some false := by
+  rw [is_running_spec, h]; simp
+
+/-- … while a second instance is: the file records the PID of another process that is alive -/
+theorem second_instance_refused (e : Env) (n : Nat) (h : e.file = .pid n) (hn : n ≠ e.own) (ha : e.alive n = true) :
+    isRunning isRunningSteps e = some true := by
+  rw [is_running_spec, h]; simp [hn, ha]
+
+/-- `vFlowIsRunning` before the F28 repair (repository commit 6770a64) -/
+def unrepairedIsRunning : List PStep := [.readPidFile, .unreadableNotRunning, .probeKill0, .runProbe, .runningIffProbeOk]
+
+/-- regression witness: the old test refused EVERY restart under the PID of the previous run (a process is alive
+to itself): `docker restart` with the shipped entrypoint never came up again -/
+theorem same_pid_restart_refused_unrepaired (e : Env) (h : e.file = .pid e.own) (ha : e.alive e.own = true) :
+    isRunning unrepairedIsRunning e = some true := by
+  simp [unrepairedIsRunning, isRunning, afterRead, h, ha]
+
+/-- non-vacuity: PID 3 recorded, own PID 3 (alive): start; own PID 7 and 3 alive: refused; 3 dead: start -/
+example : isRunning isRunningSteps ⟨.pid 3, 3, fun _ => true⟩ = some false ∧
+    isRunning isRunningSteps ⟨.pid 3, 7, fun _ => true⟩ = some true ∧
+    isRunning isRunningSteps ⟨.pid 3, 7, fun n => n != 3⟩ = some false ∧
+    isRunning unrepairedIsRunning ⟨.pid 3, 3, fun _ => true⟩ = some true := by decide
+
+end PidFile
 
 end Vflow.C15
